@@ -1,17 +1,12 @@
 """C07 - grid cell numbers, rows/columns and coordinates are mutually consistent."""
 from vf.check import Run
 from props import common as cm
-import contracts.c_grid
 
 
 def run(tier):
     r = Run('C07', tier, level='proof')
-    fns = ['getnxy', 'getcoord', 'c_coord2cell', 'c_cell2rowcol', 'c_cell2coord', 'c_neighbours']
-    gens = {(cm.GRID, 'getnxy'): cm.gen_getnxy, (cm.GRID, 'getcoord'): cm.gen_getcoord, (cm.GRID, 'c_coord2cell'): cm.gen_coord2cell,
-            (cm.GRID, 'c_cell2rowcol'): cm.gen_cell2rowcol, (cm.GRID, 'c_cell2coord'): cm.gen_cell2coord, (cm.GRID, 'c_neighbours'): cm.gen_neighbours}
-    r.c_proofs([(cm.GRID, f) for f in fns], generators=gens)
-    r.assumptions += ['doubles modelled as mathematical reals plus a NaN flag (no rounding, no infinities)',
-                      'SANE: 1 <= nrows, ncols <= 2**30, nval <= 2**60 (magnitude restriction on scalars coming from Python)']
-    r.explanation = ('Engine C: VCs generated from the clang AST of the real c_grid.c, discharged by z3/cvc5; '
-                     'bounded clauses are differential runs of the real kernels under ASan/UBSan, not counted as proved')
+    cm.run_kernels(r, cm.kernels('getnxy', 'getcoord', 'c_coord2cell', 'c_cell2rowcol', 'c_cell2coord', 'c_neighbours'))
+    r.explanation = ('Engine C: VCs generated from the clang AST of the real c_grid.c (numbering, centres, footprint -> cell, outside -> -1, '
+                     'neighbour slots, lemmas nbr_mirror / footprint_forms over the specs), discharged by z3/cvc5; bounded clauses are '
+                     'differential runs of the real kernels under ASan/UBSan and are not counted as proved')
     return r.finish()
